@@ -53,7 +53,10 @@ def inside(t: float, wire_idx: int, pause: tuple[float, float, int]) -> bool:
     return a < t < b - EPS
 
 
-def make(depth: int, rnd: float):
+def make(depth: int, rnd: float, rate_limit: int = 0):
+    """`rate_limit`: the XKNX-wide telegram rate limit (telegrams per second); the routing flow control's own pauses (busy
+    wait, 20 ms between indications) come from the specification and do not depend on it."""
+
     def scenario(ch: Chooser) -> list[tuple[str, str]]:
         viols: list[tuple[str, str]] = []
         saved_random = routing_mod.random
@@ -64,7 +67,7 @@ def make(depth: int, rnd: float):
             with World() as w:
                 loop = w.loop
                 loop._vtime = 1000.0  # noqa: SLF001  a monotonic clock is far from 0 (the flow control starts with 'last sent at 0.0')
-                xknx = XKNX()
+                xknx = XKNX(rate_limit=rate_limit)
                 confirmations: list[Any] = []
                 r = Routing(xknx, None, confirmations.append, local_ip="192.168.1.2")
                 t0 = w.spawn(r.connect(), name="harness-connect")
@@ -176,6 +179,7 @@ def run(ctx: Ctx) -> None:
     ctx.bounds = {"depth": depth, "menu": MENU, "random_values": [0.0, 0.999]}
     explore(ctx, __name__, "routing", (depth, 0.0), bound=0)
     explore(ctx, __name__, "routing", (depth - 1, 0.999), bound=0)
+    explore(ctx, __name__, "routing", (depth - 1, 0.0, 100), bound=0)   # XKNX(rate_limit=100): more than 50 telegrams per second allowed by the queue
     finalize_states(ctx)
 
 
